@@ -500,8 +500,17 @@ class LoopGen:
                 kind = 'empty-step'
             ia = r.choice(['ia', 'ib', 'ie'])
             if kind == 'const':
-                rg, _, _ = self.const_range(neg_ok=r.random() < 0.3)
+                rg, cnt, step = self.const_range(neg_ok=r.random() < 0.3)
                 idx = f'1 + mod({v} + 16, 5)'
+                c0, c1 = (int(x) for x in rg.split(',')[:2])
+                if cnt == 0 and abs(c1 - c0) < abs(step or 1):
+                    # a constant zero-trip range with |stop-start| < |step| is exactly the construct of the hostile
+                    # 'split_empty_step' (LoopRange.num_iterations gives 1): the unit is that hostile unit, unless
+                    # another hostile construct is asked for -- then the range becomes a plain zero-trip range
+                    if hostile is None:
+                        hostile, kind = 'split_empty_step', 'empty-step'
+                    else:
+                        rg = f'{c0}, {c0 - (step or 1)}' + (f', {step}' if step is not None else '')
             elif kind == 'sym':
                 rg, idx = r.choice(['1, n', '2, n-1', '0, n+1']), v
             elif kind == 'sym-step':
